@@ -30,7 +30,7 @@ KEYS = {
   'mvs':   {'res': (['C03'], []), 'dump': (['C03'], [])},
   'play':  {'res': (['C03'], []), 'dump': (['C03', 'C09'], []), 'fen': ([], ['C03']), 'hist': (['C09', 'C03'], []), 'fullhash': (['C09'], [])},
   'null':  {'null': (['C09', 'C10'], []), 'nullfull': (['C09'], []), 'back': (['C09', 'C10'], []), 'same': (['C09', 'C10'], [])},
-  'fen':   {'res': (['C11'], []), 'fen': (['C11'], []), 'dump': (['C11', 'C09'], [])},
+  'fen':   {'res': (['C11'], []), 'fen': (['C11'], ['C11']), 'dump': (['C11', 'C09'], [])},
   'perft': {'perft': (['C01'], ['C01'])},
   'eval':  {'raw': (['C15', 'C16'], []), 'mirror': (['C15'], []), 'mirrorfen': ([], ['C15'])},
   'evalc': {'scores': (['C16'], []), 'raws': (['C16', 'C15'], [])},
@@ -39,13 +39,18 @@ KEYS = {
   'order': {'res': (['C19'], []), 'scored': (['C19'], []), 'visit': (['C19'], [])},
   'time':  {'budget': (['C08'], [])},
   'go':    {'res': (['C07'], []), 'sp': (['C07'], []), 'msgs': (['C07'], [])},
+  'gof':   {'res': (['C07'], []), 'sp': (['C07'], []), 'msgs': (['C07'], [])},
   'prep':  {'tokens': (['C07'], [])},
+  'hashdiff': {'h1': (['C09'], []), 'h2': (['C09'], [])},
+  'ecache': {'out': (['C16'], [])},
+  'dialog': {'out': (['C07', 'C06'], [])},
+  'conc': {'out': (['C06', 'C05'], [])},
   'search': {'out': (['C04', 'C05', 'C13'], [])},
   'judge': {'bestlegal': ([], ['C04']), 'pvlegal': ([], ['C04']), 'bestfirst': ([], ['C04']), 'mateok': ([], ['C13'])},
 }
 ASSERT = {
   'gen':  {'p.c17': ['C17'], 'p.shape': ['C10']},
-  'mv':   {'p.hash': ['C09'], 'p.copy': ['C02'], 'p.reload': ['C09', 'C11'], 'p.shape': ['C10'], 'p.strback': ['C03']},
+  'mv':   {'p.hash': ['C09'], 'p.copy': ['C02'], 'p.reload': ['C09', 'C11', 'C02'], 'p.shape': ['C10', 'C02'], 'p.strback': ['C03']},
   'play': {'p.hash': ['C09'], 'p.replayable': ['C03']},
   'null': {'p.nullhash': ['C09'], 'p.nullback': ['C09', 'C10']},
   'fen':  {'p.total': ['C11'], 'p.roundtrip': ['C11'], 'p.canon': ['C11']},
@@ -53,12 +58,18 @@ ASSERT = {
   'evalc': {'p.transparent': ['C16']},
   'tt':   {'p.sound': ['C14'], 'p.absent': ['C14'], 'p.aftersave': ['C14']},
   'order': {'p.perm': ['C19'], 'p.sorted': ['C19']},
-  'time': {'p.ltclock': ['C08'], 'p.ltmovetime': ['C08'], 'p.indep': ['C08']},
+  'time': {'p.ltclock': ['C08', 'C05'], 'p.ltmovetime': ['C08', 'C05'], 'p.indep': ['C08']},
   'go':   {'p.total': ['C07']},
+  'gof':  {'p.total': ['C07'], 'p.faithful': ['C07']},
+  'hashdiff': {'p.distinct': ['C09']},
+  'ecache': {'p.keyexact': ['C16']},
+  'dialog': {'p.nopanic': ['C07', 'C06'], 'p.answered': ['C06', 'C05']},
+  'timed': {'p.intime': ['C05']},
+  'conc': {'p.live': ['C06', 'C05'], 'p.prompt': ['C06', 'C05'], 'p.whole': ['C06']},
   'facts': {'p.terminated': ['C05'], 'p.depthok': ['C05'], 'p.stopnow': ['C05'], 'p.nopanic': ['C04', 'C05']},
 }
 # operations whose answers are compared even outside the legal-position domain
-ALWAYS = {'fen', 'att', 'magic', 'tt', 'time', 'go', 'prep', 'search', 'facts'}
+ALWAYS = {'fen', 'att', 'magic', 'tt', 'time', 'go', 'gof', 'prep', 'search', 'facts', 'hashdiff', 'ecache', 'dialog', 'timed', 'conc'}
 
 
 def sh(cmd, cwd=None, env=None, timeout=None, stdin=None):
